@@ -15,6 +15,7 @@
  *   inc [basefile] [name]                      fresh fixture, basefile := `#include "name"`, load it
  *   inh [basefile] [name]                      fresh fixture, basefile := `inherit "name";`, load it
  *   ld [name]                                  fresh fixture, load_object (name)
+ *   ldb [name]                                 (after `binaries on`) #pragma save_binary source, loaded twice
  *
  * output lines:  lp [s] 0|1 / cvp <verdict> [s] -> [r]|none / sn [s] -> [r]|none /
  *                inc [base] [name] -> [normal] tries [t]... /
@@ -40,7 +41,7 @@ const char *__asan_default_options (void) { return "symbolize=0"; }
 const char *__ubsan_default_options (void) { return "symbolize=0"; }
 
 /* ---- libc interposition ---------------------------------------------------------------------- */
-static int fs_armed = 0;	/* 1: log, 2: log and fail with ENOENT without touching anything */
+static int fs_armed = 0;	/* 1: log, 2: log and fail with ENOENT without touching anything, 3: log unsafe paths only */
 #define MAXREC 64
 static char fs_rec[MAXREC][1100];
 static int fs_nrec = 0;
@@ -85,10 +86,28 @@ static void ent_flush (void)
     }
 }
 
+static int path_unsafe (const char *p)
+{				/* absolute, or a ".." component */
+  if (!p || p[0] == '/')
+    return 1;
+  for (const char *q = p; q; q = strchr (q, '/'), q = q ? q + 1 : 0)
+    if (q[0] == '.' && q[1] == '.' && (q[2] == '/' || q[2] == 0))
+      return 1;
+  return 0;
+}
+
+static long fs_quiet_count = 0;
+
 static void fs_log (const char *fn, int w, const char *path)
 {
   if (!fs_armed)
     return;
+  if (fs_armed == 3)
+    {				/* saved-binary runs: only calls on unsafe paths are printed */
+      fs_quiet_count++;
+      if (!path_unsafe (path))
+	return;
+    }
   if (dir_open > 0 && !fs_recording && !strcmp (fn, "stat") && ent_n < 1024)
     {
       ent_rec[ent_n++] = strdup (path ? path : "(null)");
@@ -724,16 +743,12 @@ static void fixture (void)
 }
 
 /* ---- system style -------------------------------------------------------------------------------- */
-static void sys_load (const char *kind, const char *file, const char *a0, const char *a1)
+static void do_load (const char *file, int mode)
 {
   error_context_t econ;
   object_t *volatile ob = 0;
-  if (a1)
-    vh_out ("call %s - [%s] [%s]", kind, a0, a1);
-  else
-    vh_out ("call %s - [%s]", kind, a0);
   save_context (&econ);
-  fs_armed = 1;
+  fs_armed = mode;
   if (!setjmp (econ.context))
     {
       eval_cost = CONFIG_INT (__MAX_EVAL_COST__);
@@ -762,6 +777,15 @@ static void sys_load (const char *kind, const char *file, const char *a0, const 
 	  pop_context (&econ);
 	}
     }
+}
+
+static void sys_load (const char *kind, const char *file, const char *a0, const char *a1)
+{
+  if (a1)
+    vh_out ("call %s - [%s] [%s]", kind, a0, a1);
+  else
+    vh_out ("call %s - [%s]", kind, a0);
+  do_load (file, 1);
 }
 
 static void ed_do (object_t * ob, const char *cmd0, const char *arg)
@@ -847,6 +871,49 @@ static int c15_cmd (char *line)
       /* this case must run with the master that has no valid_read / valid_write (props/c15.py picks the conf) */
       int has = function_exists ("valid_read", master_ob, 0) != 0;
       vh_out (has ? "master present" : "master absent");
+      return 1;
+    }
+  if (!strcmp (line, "binaries on"))
+    {
+      /* this case must run with SaveBinaryDir configured (props/c15.py picks the conf) */
+      vh_out (CONFIG_STR (__SAVE_BINARIES_DIR__) ? "binaries on" : "binaries off");
+      return 1;
+    }
+  if (!strncmp (line, "ldb ", 4))
+    {
+      /* ldb [name]: fresh fixture, <strip_name (name)>.c := `#pragma save_binary` source (when that is a safe path),
+         load it (the binary is saved), destruct, load it again (the binary is loaded).  Only libc calls on UNSAFE
+         paths are printed (binaries.c belongs to another property: its exact call sequence is not pinned here),
+         then whether SaveBinaryDir/<name>.b exists. */
+      char nbuf[PATH_MAX - 2], src[PATH_MAX + 8], bin[PATH_MAX + 64];
+      struct stat st;
+      char *name;
+      int saved = 0;
+      snprintf (copy, sizeof copy, "%s", line + 4);
+      name = unbr (copy);
+      fixture ();
+      rm_rf ("bin");
+      nbuf[0] = 0;
+      if (strip_name (name, nbuf, sizeof nbuf))
+	{
+	  snprintf (src, sizeof src, "%s.c", nbuf);
+	  if (!path_unsafe (src))
+	    {
+	      mk_dirs_for (src);
+	      put_file (src, "#pragma save_binary\nvoid g () { }\n");
+	    }
+	}
+      vh_out ("call binary - [%s]", name);
+      fs_quiet_count = 0;
+      do_load (name, 3);
+      do_load (name, 3);
+      init_stat ();
+      snprintf (bin, sizeof bin, "bin/%s.b", nbuf);
+      if (nbuf[0] && real_stat (bin, &st) == 0)
+	saved = 1;
+      vh_out ("binary [%s] saved=%d", name, saved);
+      if (saved && fs_quiet_count == 0)
+	vh_out ("binary !no-libc-call-observed");
       return 1;
     }
   if (strncmp (line, "u", 1) && strncmp (line, "policy ", 7) && strncmp (line, "fx ", 3)
